@@ -259,3 +259,28 @@ Theorem C11_put_succeeds_with_slow_accepting_services : forall i timeout lat,
   exists l n, r_res (run_g (with_latency i timeout lat)) = Ok l n.
 Proof. exact put_succeeds_with_slow_accepting_services. Qed.
 Print Assumptions C11_put_succeeds_with_slow_accepting_services.
+
+(* ---- the discovery cache between a refresh request and the API's answer (model/C11_pool.v: cache_state / cache_step =
+   the poll goroutine of discover.go; EvClear = RefreshServiceDiscovery, EvFetched l = a successful fetch;
+   cache_offer = what a KeepClient asking now receives, None = it blocks) ---- *)
+
+(* after a refresh request nothing is handed out until a fetch succeeds: a client that asks in between BLOCKS; a list
+   obtained before the last refresh request is never offered again *)
+Theorem C11_cache_never_stale_after_clear : forall st pre post,
+  (forall l, ~ In (EvFetched l) post) -> cache_offer (cache_run st (pre ++ EvClear :: post)) = None.
+Proof. exact cache_never_stale_after_clear. Qed.
+Print Assumptions C11_cache_never_stale_after_clear.
+
+Theorem C11_cache_offers_last_fetch : forall st pre l, cache_offer (cache_run st (pre ++ [EvFetched l])) = Some l.
+Proof. exact cache_offers_last_fetch. Qed.
+Print Assumptions C11_cache_offers_last_fetch.
+
+(* the oracle of stage c11refresh: every PUT of a Put started after the refresh request went to a writable root of the
+   refreshed list (the roots a client has after being given all the lists, i.e. those of the last one) *)
+Theorem C11_refresh_spec_b_reflects : forall c : fcase, f_lists c <> [] ->
+  (refresh_spec_b c = true <->
+   (NoDup (map d_uuid (current_list (f_lists c))) ->
+    forall u, In u (f_contacted c) ->
+      exists uuid, In (uuid, u) (r_writable (k_roots (load_all kstate0 (f_lists c)))))).
+Proof. exact refresh_spec_b_reflects. Qed.
+Print Assumptions C11_refresh_spec_b_reflects.
